@@ -4,7 +4,7 @@
   typed reading; harness/extractors/exprs_bygene.py); these theorems state that the hand-written model IS what they
   say.  Kept in a module of its own so that an edit to `by_gene` / `drop_low_coverage` breaks exactly these obligations.
 
-  `src_by_gene_step gene ignore gene_idx prev_idx` is ONE ITERATION of the loop over the gene map: the
+  `src_by_gene_step ignore gene gene_idx prev_idx` is ONE ITERATION of the loop over the gene map: the
   `(label, (a, some b))` pairs it yields (`table.iloc[a:b]`) and the new `prev_idx`; `src_by_gene_tail` is the
   telomere step after the loop; `posSlice rs` turns a yielded pair into the rows it stands for.
 -/
@@ -22,13 +22,13 @@ theorem ignore_list_is_the_source (ignore : List String) : fullIgnore ignore = s
 theorem by_gene_iteration_is_the_source (rs : List Bin) (ign : List String) (T : List (Nat × String))
     (prev i : Nat) (g : String) (ks : List (Nat × String)) :
     goPos rs ign T prev ((i, g) :: ks) =
-      (src_by_gene_step g ign (geneIdx T g) prev).1.map (posSlice rs) ++
-        goPos rs ign T (src_by_gene_step g ign (geneIdx T g) prev).2 ks :=
+      (src_by_gene_step ign g (geneIdx T g) prev).1.map (posSlice rs) ++
+        goPos rs ign T (src_by_gene_step ign g (geneIdx T g) prev).2 ks :=
   goPos_cons_src rs ign T prev i g ks
 
 /-- **after the loop**: the telomere is yielded exactly when the source's test `prev_idx < len(subgary)` holds -/
 theorem by_gene_telomere_is_the_source (rs : List Bin) (ign : List String) (T : List (Nat × String)) (prev : Nat) :
-    goPos rs ign T prev [] = (src_by_gene_tail prev rs.length).map (posSlice rs) :=
+    goPos rs ign T prev [] = (src_by_gene_tail rs.length prev).map (posSlice rs) :=
   goPos_nil_src rs ign T prev
 
 /-- **`by_gene` on one chromosome is the source's loop**: the generated loop body folded over the gene map in order
